@@ -1258,10 +1258,24 @@ static int generic_cb(jwt_t *jwt, jwt_config_t *config)
 
 /* ================================================================= tokens */
 /* claim descriptor list: [[name, type, val]...] -> json object text */
+/* "#long:<n>:<tail>" stands for <n> times 'a' followed by <tail> (strings too long to write out in a descriptor) */
+static char *expand_long(const char *sv)
+{
+	if (sv && !strncmp(sv, "#long:", 6)) {
+		char *end; long n = strtol(sv + 6, &end, 10);
+		if (*end == ':' && n >= 0 && n < 1000000) {
+			char *r = malloc((size_t)n + strlen(end + 1) + 1);
+			memset(r, 'a', (size_t)n);
+			strcpy(r + n, end + 1);
+			return r;
+		}
+	}
+	return NULL;
+}
 static json_t *claim_value(const char *t, const char *sv, json_t *w)
 {
 	if (!strcmp(t, "int")) return json_integer(unwide(w));
-	if (!strcmp(t, "str")) return json_string(sv);
+	if (!strcmp(t, "str")) { char *x = expand_long(sv); json_t *r = json_string(x ? x : sv); free(x); return r; }
 	if (!strcmp(t, "strx")) { size_t n; unsigned char *b = hexdec(sv, &n); json_t *r = json_stringn_nocheck((char *)b, n); free(b); return r; }
 	if (!strcmp(t, "bool")) return json_boolean(!strcmp(sv, "true"));
 	if (!strcmp(t, "null")) return json_null();
@@ -1345,6 +1359,7 @@ static char *forge_token(json_t *td, json_t *info)
 	const char *shape;
 	json_t *hd, *pd, *sd;
 	char *hseg, *pseg, *text, *sigseg = NULL, *tok;
+	unsigned char *presig = NULL; size_t presig_len = 0;
 	size_t tlen;
 
 	if (!strcmp(src, "slot")) {
@@ -1394,6 +1409,37 @@ static char *forge_token(json_t *td, json_t *info)
 	text = malloc(tlen + 1);
 	sprintf(text, "%s.%s", hseg, pseg);
 
+	/* "zerohead" / "zerotail" (HS*): the header gets a member "z" with the first counter value for which the
+	 * genuine MAC begins with / contains a zero octet; the signature offered equals the MAC up to and including
+	 * that octet and differs in every octet after it (a comparison that stops at a zero octet accepts it) */
+	if (!strcmp(jstr(sd, "cls", "empty"), "zerohead") || !strcmp(jstr(sd, "cls", "empty"), "zerotail")) {
+		int head = !strcmp(jstr(sd, "cls", "empty"), "zerohead");
+		for (int i = 0; i < 200000 && !presig; i++) {
+			json_t *m2 = json_object_get(hd, "m") ? json_deep_copy(json_object_get(hd, "m")) : json_array();
+			char *h2, *t2; size_t l2, ml = 0; unsigned char *mac;
+			json_array_append_new(m2, json_pack("[ssso]", "z", "int", "", wide(i)));
+			h2 = segment_for(jstr(hd, "cls", "obj"), m2, jstr(hd, "alg", "~"), 1);
+			json_decref(m2);
+			l2 = strlen(h2) + strlen(pseg) + 1;
+			t2 = malloc(l2 + 1);
+			sprintf(t2, "%s.%s", h2, pseg);
+			mac = kd_sign(json_object_get(sd, "key"), jstr(sd, "alg", "~"), t2, l2, &ml);
+			if (mac && ml > 2) {
+				size_t z = ml;
+				if (head) { if (mac[0] == 0) z = 0; }
+				else for (size_t q = 1; q + 1 < ml; q++) if (mac[q] == 0 && mac[0] != 0) { z = q; break; }
+				if (z < ml) {
+					for (size_t q = z + 1; q < ml; q++) mac[q] ^= 0xff;
+					presig = mac; presig_len = ml; mac = NULL;
+					free(hseg); free(text);
+					hseg = h2; text = t2; tlen = l2; h2 = NULL; t2 = NULL;
+				}
+			}
+			free(mac); free(h2); free(t2);
+			if (!mac && !presig && i == 0 && !kd_sign(json_object_get(sd, "key"), jstr(sd, "alg", "~"), "x", 1, &ml)) break;
+		}
+	}
+
 	/* signature */
 	{
 		const char *cls = jstr(sd, "cls", "empty");
@@ -1422,7 +1468,10 @@ static char *forge_token(json_t *td, json_t *info)
 		} else die("sig over %s", over);
 
 		if (!strcmp(cls, "empty")) { sig = NULL; sl = 0; }
-		else if (!strcmp(cls, "garbage")) {
+		else if (!strcmp(cls, "zerohead") || !strcmp(cls, "zerotail")) {
+			if (presig) { sig = presig; sl = presig_len; presig = NULL; }
+			else { sl = 32; sig = calloc(1, 33); memset(sig, 0x5a, 32); json_object_set_new(info, "signfail", json_integer(1)); }
+		} else if (!strcmp(cls, "garbage")) {
 			sl = (size_t)jint(sd, "len", 64); sig = malloc(sl + 1);
 			for (size_t i = 0; i < sl; i++) sig[i] = (unsigned char)rnd();
 		} else if (!strcmp(cls, "hmacempty")) {
@@ -1574,7 +1623,7 @@ static void project_token(json_t *ev, const char *tok, json_t *signkd, const cha
 	/* header alg as written */
 	{
 		const char *alg = "~";
-		json_error_t e; json_t *ho = h ? json_loadb((char *)h, hl, 0, &e) : NULL;
+		json_error_t e; json_t *ho = h ? json_loadb((char *)h, hl, JSON_ALLOW_NUL, &e) : NULL;
 		json_t *ja = ho ? json_object_get(ho, "alg") : NULL;
 		(void)signkd;
 		if (ja && json_is_string(ja)) alg = json_string_value(ja);
@@ -1670,6 +1719,7 @@ static void apply_cfg(struct cfgobj *o, int isb, json_t *op, json_t *ev)
 	} else if (!strcmp(name, "CClaimSet")) {
 		const char *v = jstr(op, "val", "~"); char *tmp = NULL;
 		if (!strncmp(v, "#hex:", 5)) { size_t n; tmp = (char *)hexdec(v + 5, &n); v = tmp; }
+		else if ((tmp = expand_long(v))) v = tmp;
 		ret = LIB(jwt_checker_claim_set(o->obj, claim_enum(jstr(op, "claim", "iss")), is_none(v) ? NULL : v));
 		free(tmp);
 		if (ev) json_object_set_new(ev, "ret", json_integer(ret));
@@ -1861,14 +1911,24 @@ static void op_codec_batch(json_t *op, json_t *ev)
  * ring), then all specs run concurrently, one thread each, with a random start
  * skew.  One event per spec carries both result lists. */
 struct tspec { const char *alg; const jwk_item_t *key, *vkey; int det; long iters; unsigned skew; json_t *res;
-	       jwk_set_t *set; const char *kid, *vkid; };
-struct tcb { jwk_set_t *set; const char *kid; jwt_alg_t alg; };
+	       jwk_set_t *set; const char *kid, *vkid; int walk; };
+struct tcb { jwk_set_t *set; const char *kid; jwt_alg_t alg; int walk; };
 /* the usual lookup-by-kid callback: the key comes from the shared keyring at every call */
 static int thread_kid_cb(jwt_t *jwt, jwt_config_t *config)
 {
 	struct tcb *c = config->ctx;
 	(void)jwt;
-	config->key = jwks_find_bykid(c->set, c->kid);
+	if (c->walk) {
+		/* the other usual pattern: walk the shared keyring by index and pick the key by its attributes */
+		size_t n = jwks_item_count(c->set);
+		config->key = NULL;
+		for (size_t i = 0; i < n; i++) {
+			const jwk_item_t *it = jwks_item_get(c->set, i);
+			const char *k = it ? jwks_item_kid(it) : NULL;
+			if (k && !strcmp(k, c->kid)) { config->key = it; break; }
+		}
+	} else
+		config->key = jwks_find_bykid(c->set, c->kid);
 	config->alg = c->alg;
 	return config->key ? 0 : 1;
 }
@@ -1879,7 +1939,7 @@ static void *thread_body(void *arg)
 	jwt_checker_t *c = jwt_checker_new();
 	json_t *res = json_array();
 	jwt_value_t jv;
-	struct tcb bcb = { t->set, t->kid, alg_enum(t->alg) }, ccb = { t->set, t->vkid, alg_enum(t->alg) };
+	struct tcb bcb = { t->set, t->kid, alg_enum(t->alg), t->walk }, ccb = { t->set, t->vkid, alg_enum(t->alg), t->walk };
 	if (t->skew) usleep(t->skew);
 	if (t->kid) {
 		jwt_builder_setcb(b, thread_kid_cb, &bcb);
@@ -1927,6 +1987,7 @@ static void op_threads(json_t *op, json_t *unused)
 		ts[i].vkey = jwks_item_get(r->set, (size_t)jint(sp, "vkey", 0));
 		ts[i].det = (int)jint(sp, "det", 0);
 		ts[i].set = r->set;
+		ts[i].walk = jint(op, "bykid", 0) == 2;
 		if (jint(op, "bykid", 0)) {
 			ts[i].kid = jwks_item_kid(ts[i].key);
 			ts[i].vkid = jwks_item_kid(ts[i].vkey);
